@@ -168,4 +168,28 @@ theorem replica_torn_header (C : Crypto) (hC : TreeStore.HashWF C) (hT : TreeSto
   obtain ⟨c', j, r1, r2, _, _⟩ := ReplicaCrash.durR_open C bs _ _ _ _ _ hdur
   exact ⟨c', j, r1, C02.shows_of_rp C bs _ c' _ _ r2, r2⟩
 
+/-- the same commit point for a proof that carries a block below the replica's length **and an upgrade**: a torn write of
+    the block's bytes or of the single oplog entry (nodes + upgrade + bitfield update) recovers to the replica of length
+    `m` without the block -/
+theorem replica_blockgrow_torn_commit_point (C : Crypto) (hC : TreeStore.HashWF C) (hT : TreeStore.TreeWF C) (bs : Array Bytes) (m n : Nat) (c : Core) (d : Disk)
+    (held : Nat → Bool) (h : ReplicaReopen.RP C bs m c d held) (hm0 : 0 < m) (hmn : m < n) (hn : n ≤ bs.size) (us : List (Nat × Nat))
+    (hup : Growth.Up m 0 (RefTree.rootsStack n).reverse us) (sig : Bytes) (hsl : sig.length = 64)
+    (hver : C.verify c.publicKey (Growth.signableAt C bs n c.tree.fork) sig = true) (i : Nat) (hi : i < m) :
+    ∃ (e : Oplog.Entry) (j0 : List SOp), (∃ j2, (c.verifyAndApply C d (BlockGrow.honestBlockGrowth C bs c d i m n us sig)).journal = (j0 ++ (Oplog.appendEntry c.oplog e).2) ++ j2)
+      ∧ (∀ op ∈ j0, ∃ off bytes, op = SOp.write .data off bytes ∧ ∀ t, ∃ c' j, Core.openCore C none (d.apply (SOp.write .data off (bytes.take t))) = .ok (c', j)
+          ∧ C02.Shows bs m held c' ((d.apply (SOp.write .data off (bytes.take t))).applyAll j)
+          ∧ ReplicaReopen.RP C bs m c' ((d.apply (SOp.write .data off (bytes.take t))).applyAll j) held)
+      ∧ (∀ t, t < (Oplog.frame (Oplog.encEntry e) c.oplog.currentBit false).length →
+          let dt := (d.applyAll j0).apply (SOp.write .oplog (Spec.entriesOffset + c.oplog.entriesByteLength) ((Oplog.frame (Oplog.encEntry e) c.oplog.currentBit false).take t))
+          ∃ c' j, Core.openCore C none dt = .ok (c', j) ∧ C02.Shows bs m held c' (dt.applyAll j) ∧ ReplicaReopen.RP C bs m c' (dt.applyAll j) held) := by
+  obtain ⟨c1, e, j0, hk⟩ := BlockGrow.blockgrow_ok C hC hT bs m n c d held h hm0 hmn hn us hup sig hsl hver i hi
+  obtain ⟨t1, t2⟩ := ReplicaCrash.torn_ok C bs m _ c c1 d held _ _ e j0 h hk
+  refine ⟨e, j0, ⟨_, hk.shape.2⟩, fun op hop => ?_, fun t ht => ?_⟩
+  · obtain ⟨off, bytes, hop', hdur⟩ := t1 op hop
+    refine ⟨off, bytes, hop', fun t => ?_⟩
+    obtain ⟨c', j, r1, r2, _, _⟩ := ReplicaCrash.durR_open C bs m held _ _ _ (hdur t)
+    exact ⟨c', j, r1, C02.shows_of_rp C bs m c' _ held r2, r2⟩
+  · obtain ⟨c', j, r1, r2, _, _⟩ := ReplicaCrash.durR_open C bs m held _ _ _ (t2 t ht)
+    exact ⟨c', j, r1, C02.shows_of_rp C bs m c' _ held r2, r2⟩
+
 end HC.C07
